@@ -732,6 +732,12 @@ def readers_universe():
     for n in range(0, 4):
         for t in itertools.product(["1", "0.5", ",", " ", "x"], repeat=n):
             ops.append("dd.read %s 1" % hx("Mixture(probas=(%s),dist1=Constant(value=1),dist2=Constant(value=2))" % "".join(t)))
+    # list arguments of one character (listContent_ needs two), the other arguments being valid
+    for v in ("x", "1", " ", "[", "V"):
+        ops.append("dd.read %s 1" % hx("Simple(values=(1,2),probas=(0.5,0.5),ranges=%s)" % v))
+        ops.append("dd.read %s 1" % hx("Simple(values=%s,probas=(1))" % v))
+        ops.append("dd.read %s 1" % hx("Simple(values=(1),probas=%s)" % v))
+        ops.append("dd.read %s 1" % hx("Mixture(probas=%s,dist1=Constant(value=1))" % v))
     # every argument name of the reader once with every distribution name, alone and with n
     for d in RD["dist_names"]:
         for k in RD["dist_all_args"] + [f + "1" for f in RD["dist_numbered"]]:
@@ -861,7 +867,9 @@ def generate(seed, tier):
     fams = [(g_tt, 5), (g_st, 4), (g_nst, 3), (g_kv, 3), (g_glob, 1), (g_at, 3), (g_ft, 1), (g_ic, 1), (g_dt, 2), (g_dd, 2), (g_vec, 1), (g_seq, 1), (g_ct, 1)]
     tot = sum(w for _, w in fams)
     cases = []
-    cases += chunk("exh", exhaustive(tier), 250)
+    # the extra batches of check.py's directed search (seed * 1000 + k) do not repeat the fixed universes
+    if seed < 1000:
+        cases += chunk("exh", exhaustive(tier), 250)
     for f, w in fams:
         ops = [f(rng, tier) for _ in range(n * w // tot)]
         # at.vars can hit the known non-termination finding: one op per case (a case is judged up to its first issue)
